@@ -274,6 +274,9 @@ HOSTILE_CONSTS = ["\U0001F680 rocket", "\U0001D518\U00020000", "e\u0301", "\ufef
                   dt.timedelta(hours=5), dt.timedelta(days=2, seconds=3), dt.timedelta(0)]
 
 
+CODING_TITLES = ['Barcoding=EAN13', 'coding=latin-1', 'Encoding=Latin1 export', 'coding=utf-16', '-- coding=cp1251 --', 'fileencoding=koi8-r']
+
+
 def valid_title(t):
     return 0 < len(t) <= 31 and not re.search(r'[\\*?:/\[\]]', t)
 
@@ -287,6 +290,10 @@ def whole_book(ctx, bi):
     # rename sheets to hostile titles, fixing the quoted references that name them
     old = list(info['titles'])
     new = rng.sample([t for t in HOSTILE_TITLES if valid_title(t)], len(old))
+    if rng.random() < 0.4:
+        # a title that reads like a source-encoding declaration (PEP 263 looks for "coding=" in any comment of the first two lines of a FILE)
+        new[rng.randrange(len(new))] = rng.choice(CODING_TITLES)
+        r.count('books_with_encoding_declaration_titles')
     unref = [t for t in new if "'" in t or '!' in t]       # no spelling in the grammar: such a sheet is simply never referenced
     ren = {}
     for o, n in zip(old, new):
